@@ -45,6 +45,7 @@ int main(int argc, char** argv) {
     fflush(stdout);
     pid_t pid = fork();
     if (pid != 0) { int st = 0; waitpid(pid, &st, 0); if (!(WIFEXITED(st) && WEXITSTATUS(st) == 0)) printf("CRASH %d %d\n", p, WIFSIGNALED(st) ? WTERMSIG(st) : -WEXITSTATUS(st)); continue; }
+    alarm(300);   // a program normally takes well under a second: a loop that never terminates is reported as a crash (signal 14) with its program
     hz::Rng r(seed * 1000 + p);
     ap::Gen gen(r, p % 3 != 2);   // two thirds of the programs live on the integer lattice
     std::vector<Manifold> pool; std::vector<std::string> text;
